@@ -159,6 +159,32 @@ pub mod propagation {
     }
 
     /// length-preserving one-input adaptors forward exhaustion unchanged
+    /// mul_hz combines a resampled source with a per-frame rate multiplier: exhausted as soon as the
+    /// multiplier signal is, and otherwise only once the source is
+    #[kani::proof]
+    #[kani::unwind(8)]
+    pub fn mul_hz_two_inputs() {
+        use dasp_interpolate::floor::Floor;
+        let src = any_probe();
+        let lc = any_len(3);
+        let ctl: Probe<f64, 3> = Probe::new([1.0, 1.0, 1.0], lc);
+        let mut m = src.clone().mul_hz(Floor::new(0i16), ctl.clone());
+        for n in 0..4 {
+            if n >= lc {
+                assert!(m.is_exhausted(), "a combining adaptor is exhausted as soon as any input is (rate multiplier)");
+            } else if m.is_exhausted() {
+                // at ratio 1 at most n source frames have been pulled before output n
+                assert!(src.len <= n, "not exhausted while both inputs still have frames");
+            }
+            m.next();
+        }
+        let k = src.clone().mul_hz(Floor::new(0i16), ctl.clone()).until_exhausted().take(6).count();
+        assert!(k <= lc, "until_exhausted stops no later than the shortest input");
+        kani::cover!(lc < src.len, "multiplier shorter than the source");
+        kani::cover!(src.len < lc, "source shorter than the multiplier");
+        kani::cover!(true, "end");
+    }
+
     #[kani::proof]
     #[kani::unwind(8)]
     pub fn one_input_adaptors() {
